@@ -87,17 +87,17 @@ Proof.
     + intros i [<-|Hi]; [lia|]. specialize (B i Hi). lia.
 Qed.
 
-Theorem machine_tree_val : forall (visit : option visit_fn) defs k items,
+Theorem machine_tree_val : forall (visit : option visit_fn) rr defs k items,
   let t := VNode k items in
   exists v m lg,
-    remap visit defs (inject t) = Done v m lg
+    remap (lift visit) rr defs (inject t) = Done v m lg
     /\ erase v = rebuild (vfun visit) [] t
     /\ evisits lg = calls_opt visit [] t.
 Proof.
-  intros visit defs k items t. unfold inject.
+  intros visit rr defs k items t. unfold inject.
   destruct (inject_from t 0) as [o n'] eqn:E. cbn [fst].
   destruct (inject_from_ok t 0 o n' E) as [_ [T [R [D _]]]].
   unfold t in E. rewrite inject_node in E. destruct (inject_items items 1) as [items' n1]. inversion E; subst o n'.
-  destruct (machine_tree visit defs 0 k items' T D) as [v [m [lg [H1 [H2 H3]]]]].
+  destruct (machine_tree visit rr defs 0 k items' T D) as [v [m [lg [H1 [H2 H3]]]]].
   exists v, m, lg. rewrite R in H2, H3. auto.
 Qed.
